@@ -124,6 +124,10 @@ pub fn exec(a: &[&str]) -> String {
                 }
             }
             // 3. the CLI prints the library's expression (first offset)
+            // (one spawn more: done for a deterministic quarter of the requests)
+            if bytes.len() % 4 != 0 {
+                return format!("LOC-OK {}", offs.len());
+            }
             let path = std::env::temp_dir().join(format!("svc29-{}.yaml", std::process::id()));
             if std::fs::write(&path, &bytes).is_ok() {
                 let (_, out3, err3) = run_cli(&["yq-locate", path.to_str().unwrap(), "--offset", &offs[0].to_string()], b"");
@@ -138,8 +142,94 @@ pub fn exec(a: &[&str]) -> String {
     }
 }
 
+fn plain(s: &str) -> PNode {
+    PNode::Str(s.to_string(), SStyle::Plain)
+}
+
+/// A nested block node of depth `d` ending in a scalar: mappings (`a:\n  b:\n    c: 1`) and sequences mixed.
+fn nest(r: &mut Rng, d: usize, ctx: Ctx) -> PNode {
+    if d == 0 {
+        return if r.chance(1, 2) { PNode::Int(r.below(100) as i64, 0) } else { plain("x") };
+    }
+    let compact = ctx == Ctx::Seq && r.chance(1, 2);
+    if r.chance(1, 4) {
+        let mut items = vec![(Meta::default(), nest(r, d - 1, Ctx::Seq))];
+        if !compact && r.chance(1, 3) {
+            items.push((Meta::default(), plain("y")));
+        }
+        PNode::Seq { flow: false, step: if ctx == Ctx::Map && r.chance(1, 2) { 0 } else { 2 }, compact, items }
+    } else {
+        let k = (*r.pick(&["a", "b", "c", "k", "name"])).to_string();
+        let mut entries = vec![(Meta::default(), k, KStyle::Plain, nest(r, d - 1, Ctx::Map))];
+        if !compact && r.chance(1, 3) {
+            entries.push((Meta::default(), "z".to_string(), KStyle::Plain, plain("t")));
+        }
+        PNode::Map { flow: false, step: 2, compact, entries }
+    }
+}
+
+/// Streams with 60–400 nodes: padding entries (`pNN: x`) of varying number between nested mappings /
+/// sequences, so that runs of nodes starting at one text position (a block collection and its first
+/// key or entry) fall on every phase of the 64-node words of the position index.
+pub fn big_stream(r: &mut Rng) -> PStream {
+    let target = r.range(60, 400) as usize;
+    let dense = r.chance(1, 2);
+    let root_seq = r.chance(1, 3);
+    let mut nodes = 1usize;
+    let mut entries: Vec<(Meta, String, KStyle, PNode)> = Vec::new();
+    let mut i = 0usize;
+    // a first run of padding so that the first nested block lands anywhere in the first words
+    let mut pad = r.range(0, 40) as usize;
+    while nodes < target {
+        if pad > 0 {
+            pad -= 1;
+            entries.push((Meta::default(), format!("p{i:02}"), KStyle::Plain, plain("x")));
+            nodes += 2;
+        } else {
+            let d = r.range(1, 4) as usize;
+            entries.push((Meta::default(), format!("n{i}"), KStyle::Plain, nest(r, d, Ctx::Map)));
+            nodes += 2 + 2 * d;
+            pad = if dense { r.range(0, 3) as usize } else { r.range(0, 34) as usize };
+        }
+        i += 1;
+    }
+    let root = if root_seq {
+        // a sequence of small mappings (`- pNN: x`)
+        let mut items: Vec<(Meta, PNode)> = Vec::new();
+        let mut cur: Vec<(Meta, String, KStyle, PNode)> = Vec::new();
+        for e in entries {
+            // a multi-line entry ends its (compact) mapping
+            let multi = !matches!(e.3, PNode::Str(..) | PNode::Int(..));
+            cur.push(e);
+            if multi || r.chance(1, 3) {
+                items.push((Meta::default(), PNode::Map { flow: false, step: 2, compact: true, entries: std::mem::take(&mut cur) }));
+            }
+        }
+        if !cur.is_empty() {
+            items.push((Meta::default(), PNode::Map { flow: false, step: 2, compact: true, entries: cur }));
+        }
+        PNode::Seq { flow: false, step: 2, compact: false, items }
+    } else {
+        PNode::Map { flow: false, step: 2, compact: false, entries }
+    };
+    PStream { docs: vec![PDoc { fill: vec![], marker: r.chance(1, 4), end_marker: false, root, root_meta: Meta::default() }], br: *r.pick(&[Break::Lf, Break::Lf, Break::Crlf]) }
+}
+
 pub fn gen(tier: Tier, r: &mut Rng, emit: &mut dyn FnMut(String)) {
-    let n = if tier == Tier::Quick { 40 } else { 400 };
+    // large documents: every token's first byte is queried
+    for _ in 0..(if tier == Tier::Quick { 10 } else { 150 }) {
+        let ps = big_stream(r);
+        if features(&ps) != "-" && features(&ps) != "len64" {
+            continue;
+        }
+        let (lf, toks) = render_lf(&ps);
+        let bo = byte_offsets(&lf, ps.br);
+        let mut offs: Vec<usize> = toks.iter().filter(|t| bo[t.end] > bo[t.start]).map(|t| bo[t.start]).collect();
+        offs.dedup();
+        offs.truncate(450);
+        emit(format!("C29 loc {} - {} {}", stream_wire(&ps), hex_bytes(&render(&ps)), list(&offs)));
+    }
+    let n = if tier == Tier::Quick { 16 } else { 400 };
     let mut made = 0;
     let mut attempts = 0;
     while made < n && attempts < n * 40 {
